@@ -12,8 +12,12 @@ LEVEL = "model_checking"
 PROFILES = ["release", "checked"]
 
 
-def gen_cases(ctx):
-    g = ctx.tlc("Gen_LZ", "Gen_LZ.cfg", env={"VERIF_TIER": ctx.tier}, workers=6, count=False, timeout=ctx.pick(600, 3000))
+def gen_cases(ctx, bins):
+    # seeded random token sequences (choice of tokens only); TLC encodes them and computes the expansion
+    tpath = ctx.path("tokens.ndjson")
+    ctx.harness(bins["release"], ["tokgen", tpath])
+    g = ctx.tlc("Gen_LZ", "Gen_LZ.cfg", env={"VERIF_TIER": ctx.tier, "TOKENS": tpath}, workers=6, count=False,
+                timeout=ctx.pick(600, 3000))
     if g.tagged_raw("X"):
         raise vlib.ToolError("generator self-check failed: %s" % g.tagged_raw("X")[0][:300])
     cases, seen = [], set()
@@ -94,17 +98,20 @@ def run(ctx):
     ctx.rule = ("spec->impl: every token sequence of <= %d tokens over literals {a,b} and references (length 3,4%s; displacement "
                 "1,2,3,Len(out)); literal run of 6..16 + <= 2 such tokens (flag-byte boundary); literal run of %s bytes + a "
                 "reference with boundary length (3,4,16,17,18,19,272,273,4096,4097,65808 within the format) and displacement "
-                "{1,2,3,m-1,m,4095,4096} (+ one more token); each as bare LZ10 / bare LZ11 / 0x13-wrapped stream, plus every "
+                "{1,2,3,m-1,m,4095,4096} (+ one more token); short run + reference at every nibble roll-over of the LZ11 length "
+                "field (0x21..0x8111) + literal / near / far reference; exactly 4094..4097 bytes produced + reference with every "
+                "displacement produced+1..4096 and the legal edge ones; %d seeded random token sequences (lengths log-uniform over "
+                "the format's range, displacements anywhere in 1..min(produced,4096)); each as bare LZ10 / bare LZ11 / 0x13-wrapped stream, plus every "
                 "truncation, a reference before the start of output at every token position, trailing byte, overshoot, wrong "
                 "declared length, 32-bit header, stored form, short/unknown-type headers; each stream x 4 entry points x 2 "
                 "profiles. impl->spec: seeded corruptions of valid streams and random bytes. Non-trivial = case whose token "
                 "sequence has a reference or whose stream is a malformed/silent variant (spec->impl); event whose class is "
                 "not a header-level rejection (impl->spec)."
-                % (ctx.pick(4, 5), "", ctx.pick("1,3,17,4096", "1..4,15..18,272,273,4095..4097")))
+                % (ctx.pick(4, 5), "", ctx.pick("1,3,17,4096", "1..4,15..18,272,273,4095..4097"), ctx.pick(80, 600)))
     bins = {p: ctx.build(p, c08.BIN) for p in PROFILES}
     c08.model_laws(ctx)
     # spec -> impl
-    cases = gen_cases(ctx)
+    cases = gen_cases(ctx, bins)
     n_flat, n_bad = replay_cases(ctx, bins, cases, "all")
     ctx.traces += n_flat * len(PROFILES)
     ctx.evaluations += n_flat * len(PROFILES)
@@ -113,6 +120,13 @@ def run(ctx):
     for c in cases:
         by_var[c["var"]] = by_var.get(c["var"], 0) + 1
     ctx.extra["generated_streams_by_variant"] = by_var
+    by_fam = {}
+    for c in cases:
+        by_fam[c["fam"]] = by_fam.get(c["fam"], 0) + 1
+    ctx.extra["generated_streams_by_family"] = by_fam
+    for f in ("small", "group", "edge", "nibble", "window", "rand", "fixed"):
+        if not by_fam.get(f):
+            raise vlib.ToolError("generator family %s produced no cases" % f)
     ctx.extra["generated_streams"] = len(cases)
     ctx.extra["longest_generated_expansion"] = max(len(c["expect"]) for c in cases)
     for c in cases:
